@@ -13,7 +13,9 @@ ASSUMPTIONS = ["hashes stand for contents", "aliasing is observed by pointer ran
 TRUSTED = []
 
 SHAPES = [("default", 1, 0), ("default", 1, 1), ("default", 2, 1), ("default", 3, 2), ("default", 5, 3), ("default", 10, 4),
-          ("default", 17, 3), ("default", 255, 1), ("leo8", 2, 1), ("leo8", 5, 3), ("leo16", 3, 2), ("leo16", 10, 4), ("default", 4, 0)]
+          ("default", 17, 3), ("default", 255, 1), ("leo8", 2, 1), ("leo8", 5, 3), ("leo16", 3, 2), ("leo16", 10, 4), ("default", 4, 0),
+          # one data shard with parity (the "nothing to split" shortcuts), one parity shard, Leopard codecs
+          ("leo8", 1, 1), ("leo8", 1, 3), ("leo16", 1, 2), ("leo8", 4, 1), ("leo16", 1, 1)]
 
 
 def gen_ops(tier, rng):
